@@ -48,6 +48,8 @@ type c13Reply struct {
 	Gi    obs.Hex `json:"giaddr,omitempty"`
 	Bcast bool    `json:"bcast,omitempty"`
 	Sname string  `json:"sname,omitempty"`
+	// v6: T1, T2 of the IA_NA and preferred / valid lifetime of its address, as 32-bit wire values (0: one hour)
+	Life [4]uint32 `json:"lifetimes,omitempty"`
 }
 
 type c13Case struct {
@@ -59,6 +61,7 @@ type c13Case struct {
 }
 
 type c13Delivery struct {
+	IANA   []byte // v6: the IA_NA option as it went out on the wire (code and length included)
 	At     int
 	Serial int
 	Server int
@@ -70,6 +73,7 @@ type c13Delivery struct {
 }
 
 type c13Write struct {
+	Raw  []byte
 	At   int
 	To   string
 	V4   *dhcpv4.DHCPv4
@@ -107,7 +111,7 @@ func c13Run(t *testing.T, c c13Case) *c13History {
 		txCount := map[int]int{}
 		var delMu sync.Mutex
 		conn.OnWrite = func(w netsim.Write) {
-			cw := c13Write{At: ticks(w.At), To: w.To.String()}
+			cw := c13Write{At: ticks(w.At), To: w.To.String(), Raw: append([]byte{}, w.B...)}
 			var xid []byte
 			var chaddr net.HardwareAddr
 			if c.V6 {
@@ -309,9 +313,19 @@ func c13Reply6(r c13Reply, si int, req *dhcpv6.Message, serial int, d *c13Delive
 		m.AddOption(dhcpv6.OptServerID(&dhcpv6.DUIDLL{HWType: 1, LinkLayerAddr: net.HardwareAddr{0xaa, 0, 0, 0, 0, byte(si + 100*r.SID)}}))
 	}
 	if r.HW == 0 { // reused as "carries an IA_NA"
-		ia := &dhcpv6.OptIANA{IaId: [4]byte{9, 9, 9, byte(serial)}, T1: time.Hour, T2: 2 * time.Hour}
-		ia.Options.Add(&dhcpv6.OptIAAddress{IPv6Addr: net.ParseIP("2001:db8::1"), PreferredLifetime: time.Hour, ValidLifetime: time.Hour})
-		m.AddOption(ia)
+		// written octet by octet (not through the library's encoder): IAID, T1, T2, one address with its lifetimes
+		life := r.Life
+		for i, d := range []uint32{3600, 7200, 3600, 3600} {
+			if life[i] == 0 {
+				life[i] = d
+			}
+		}
+		be := func(v uint32) []byte { return []byte{byte(v >> 24), byte(v >> 16), byte(v >> 8), byte(v)} }
+		body := append([]byte{9, 9, 9, byte(serial)}, append(be(life[0]), be(life[1])...)...)
+		addr := append(append(net.ParseIP("2001:db8::1").To16(), be(life[2])...), be(life[3])...)
+		body = append(append(body, 0, 5, 0, 24), addr...)
+		d.IANA = append([]byte{0, 3, byte(len(body) >> 8), byte(len(body))}, body...)
+		m.AddOption(&dhcpv6.OptionGeneric{OptionCode: dhcpv6.OptionIANA, OptionData: body})
 		if r.Op == 1 { // reused as "also carries an IA_PD"
 			m.AddOption(&dhcpv6.OptIAPD{IaId: [4]byte{7, 7, 7, byte(serial)}})
 		}
@@ -325,6 +339,22 @@ func c13Reply6(r c13Reply, si int, req *dhcpv6.Message, serial int, d *c13Delive
 	d.Xid = append([]byte{}, m.TransactionID[:]...)
 	d.Good = true
 	return m.ToBytes()
+}
+
+// c13TopOption returns the first top-level option with the given code of a DHCPv6 message on the wire (header
+// included), read with plain index arithmetic.
+func c13TopOption(b []byte, code int) []byte {
+	for i := 4; i+4 <= len(b); {
+		c, l := int(b[i])<<8|int(b[i+1]), int(b[i+2])<<8|int(b[i+3])
+		if i+4+l > len(b) {
+			return nil
+		}
+		if c == code {
+			return b[i : i+4+l]
+		}
+		i += 4 + l
+	}
+	return nil
 }
 
 // ambiguous reports whether a delivery coincides with a transmission instant or the
@@ -626,6 +656,8 @@ func c13Check6(c c13Case, h *c13History) *obs.Fail {
 		return obs.Failf("C13/v6/request/server-id", "advertised server id", "differs")
 	case rq.Options.OneIANA() == nil || rq.Options.OneIANA().IaId != [4]byte{9, 9, 9, byte(first.Serial)}:
 		return obs.Failf("C13/v6/request/ia-na", "advertised IA_NA", "differs")
+	case !bytes.Equal(c13TopOption(reqs[0].Raw, 3), first.IANA):
+		return obs.Failf("C13/v6/request/ia-na-content", fmt.Sprintf("the advertised IA_NA octet for octet: %x", first.IANA), "%x", c13TopOption(reqs[0].Raw, 3))
 	case (first.R.Op == 1) != (rq.GetOneOption(dhcpv6.OptionIAPD) != nil):
 		return obs.Failf("C13/v6/request/ia-pd", fmt.Sprintf("IA_PD present=%v", first.R.Op == 1), "present=%v", rq.GetOneOption(dhcpv6.OptionIAPD) != nil)
 	}
@@ -794,6 +826,11 @@ func c13Hostile(t *rapid.T, r *c13Reply, s int) {
 		r.Ci = append([]byte{}, r.Yi...)
 	case 2:
 		r.Ci = []byte{0, 0, 0, 0}
+	}
+	if rapid.IntRange(0, 2).Draw(t, "life") == 0 {
+		for i := range r.Life {
+			r.Life[i] = rapid.SampledFrom([]uint32{0, 1, 3600, 0x7fffffff, 0x80000000, 0xfffffffe, 0xffffffff, 0xffffffff}).Draw(t, "lifetime")
+		}
 	}
 	r.Si = rapid.SampledFrom([]int{0, 0, 0, 1, 2}).Draw(t, "si")
 	if rapid.IntRange(0, 5).Draw(t, "gi") == 0 {
